@@ -138,7 +138,7 @@ theorem run_files (cfg : Cfg) (fs : FS) (bs : List Lcov.Bytes) (hS : cfg.sourceD
     exact ⟨by rw [e]; exact ha, by rw [e], by rw [e]⟩
   have hrep : report cfg true fs bs = .ok (M.map g) := by
     unfold report; rw [hM]
-    have := Grcov.Props.C05.CliAux.rewritePaths_map_ok cfg fs M id g (by simp [hS]) (fun kc hkc => (hg kc hkc).1)
+    have := Grcov.Cli.rewritePaths_map_ok cfg fs M id g (by simp [hS]) (fun kc hkc => (hg kc hkc).1)
     simpa using this
   have hpr : printable (M.map g) = sortR M := by
     simp only [printable, sortR, List.map_map]
@@ -302,7 +302,9 @@ theorem C06_cli_sharding_partial (cfg : Cfg) (fs : FS) (t : Tree Lcov.Bytes) (hS
   obtain ⟨ce, cl⟩ := comb_eval_leaves (inputsAt k t).leaves (.leaf (covAt [] k))
   have e3 : ObsEq ((inputsAt k t).leaves.foldl merge (covAt [] k))
       (Tree.node (.leaf (covAt [] k)) (inputsAt k t)).eval := by
-    rw [← ce]
+    have ce' : ((inputsAt k t).leaves.foldl (fun t x => Tree.node t (.leaf x)) (.leaf (covAt [] k))).eval
+        = (inputsAt k t).leaves.foldl merge (covAt [] k) := ce
+    rw [← ce']
     apply C01_grouping_invariant
     · intro c hc; rw [cl] at hc
       simp only [Tree.leaves, List.mem_append, List.mem_singleton] at hc
@@ -314,5 +316,49 @@ theorem C06_cli_sharding_partial (cfg : Cfg) (fs : FS) (t : Tree Lcov.Bytes) (hS
     obsEq_merge_empty_left _ (Tree.eval_wf _ hw)
   rw [pd]
   exact obsEq_trans (os k) (obsEq_symm (obsEq_trans (covAt_sortR _ hM k) (obsEq_trans e1 (obsEq_trans e3 e4))))
+
+/-- In a configuration without any path option, every path in reported form – clean, relative or
+absolute, no backslash – is a fixed path: the guard of `C06_cli_sharding_partial` is met by inputs
+whose `SF` paths are already normal (clean current directory). -/
+theorem C06_cli_fixed_path_plain (fs : FS) (hcwd : ∀ n ∈ fs.cwd, UPath.RealName n) (np : UPath.NPath)
+    (hreal : ∀ n ∈ np.names, UPath.RealName n) (hbs : 92 ∉ UPath.render np) :
+    FixedPath {} fs (UPath.render np) := by
+  intro c
+  obtain ⟨a, ha⟩ := resolveKey_plain_normal (cfg := {}) (fs := fs) rfl rfl rfl hcwd hreal hbs
+  refine ⟨a, ?_⟩
+  rw [rewriteKey_some_iff]
+  refine ⟨a, _, ha, ?_⟩
+  rw [selectRec_some_iff]
+  exact ⟨rfl, Or.inl rfl, by simp, rfl, rfl⟩
+
+namespace CliWit
+def in1 : Lcov.Bytes := [84, 78, 58, 10, 83, 70, 58, 120, 47, 46, 46, 47, 97, 46, 99, 10, 68, 65, 58, 49, 44, 49, 10, 101, 110, 100, 95, 111, 102, 95, 114, 101, 99, 111, 114, 100, 10]
+def in0 : Lcov.Bytes := [84, 78, 58, 10]
+def in2 : Lcov.Bytes := [84, 78, 58, 10, 83, 70, 58, 97, 46, 99, 10, 68, 65, 58, 50, 44, 49, 10, 101, 110, 100, 95, 111, 102, 95, 114, 101, 99, 111, 114, 100, 10]
+def g1 : Lcov.Bytes := [84, 78, 58, 10, 83, 70, 58, 115, 114, 99, 47, 97, 46, 99, 10, 68, 65, 58, 51, 44, 50, 10, 68, 65, 58, 49, 44, 49, 10, 70, 78, 58, 49, 44, 102, 10, 70, 78, 68, 65, 58, 48, 44, 102, 10, 66, 82, 68, 65, 58, 49, 44, 48, 44, 48, 44, 49, 10, 101, 110, 100, 95, 111, 102, 95, 114, 101, 99, 111, 114, 100, 10]
+def g2 : Lcov.Bytes := [84, 78, 58, 10, 83, 70, 58, 115, 114, 99, 47, 97, 46, 99, 10, 68, 65, 58, 49, 44, 52, 10, 70, 78, 58, 49, 44, 102, 10, 70, 78, 68, 65, 58, 50, 44, 102, 10, 66, 82, 68, 65, 58, 49, 44, 48, 44, 49, 44, 45, 10, 101, 110, 100, 95, 111, 102, 95, 114, 101, 99, 111, 114, 100, 10, 83, 70, 58, 108, 105, 98, 47, 98, 46, 99, 10, 68, 65, 58, 57, 44, 48, 10, 101, 110, 100, 95, 111, 102, 95, 114, 101, 99, 111, 114, 100, 10]
+def g3 : Lcov.Bytes := [84, 78, 58, 10, 83, 70, 58, 108, 105, 98, 47, 98, 46, 99, 10, 68, 65, 58, 57, 44, 53, 10, 101, 110, 100, 95, 111, 102, 95, 114, 101, 99, 111, 114, 100, 10]
+def fs0 : FS := { files := [], dirs := [], cwd := [] }
+def out (r : Res Lcov.Bytes) : Lcov.Bytes := match r with | .ok b => b | .panic _ => []
+end CliWit
+open CliWit
+
+/-- The fixed-path guard (`keysRewriteInjectively`) is needed: two inputs spell one file `x/../a.c`
+and `a.c` (known finding C12-respelled-duplicates). The shard `(in1 ∅)` reports it as `a.c`, the
+upper run merges that with `in2`'s `a.c`: one section, lines 1 and 2. The single run on all inputs
+keeps two map entries and lists `a.c` TWICE; read back, the first section wins: line 2 is missing. -/
+theorem C06_cli_respelled_paths_witness :
+    get? (covAt (parseInput true (out (evalCli {} fs0 (.node (.node (.leaf in1) (.leaf in0)) (.leaf in2)))))
+        [97, 46, 99]).lines 2 = some 1
+    ∧ get? (covAt (parseInput true (out (Cli.run {} true fs0 [in1, in0, in2]))) [97, 46, 99]).lines 2 = none := by
+  decide +kernel
+
+/-- non-vacuity: three inputs sharing files (lines out of order, a function hit in one shard only,
+branch vectors of different length), sharded as `((g1 g2) g3)` and run directly: both succeed, and
+the two reports are even byte-equal here -/
+example :
+    out (evalCli {} fs0 (.node (.node (.leaf g1) (.leaf g2)) (.leaf g3))) = out (Cli.run {} true fs0 [g1, g2, g3])
+    ∧ out (Cli.run {} true fs0 [g1, g2, g3]) ≠ [] := by
+  decide +kernel
 
 end Grcov.Props.C06
